@@ -48,6 +48,7 @@ CONSTANTS Procs,      \* request slots, a set of positive integers
           FormOf,     \* [Procs -> Forms]: the request-target form of each slot's request
           UpOf,       \* [Procs -> Seq(WrapperKinds)]: the foreign ResponseWriter wrappers between the client's
                       \* writer and the LogMiddleware on each slot's route, outermost first
+          ClientOf,   \* [Procs -> ClientKinds]: what each slot's client writer offers (io.ReaderFrom, ...)
           MaxToggles, \* how often the environment changes the logger's level (SetLevel)
           MwEnabled,  \* BOOLEAN: the middleware's level is enabled in the base handler WHEN THE MIDDLEWARE
                       \* IS CONSTRUCTED; afterwards the level is environment state (lvl.on).  When it is
@@ -96,7 +97,7 @@ LgRid(l) == IF l.k = "ref" THEN attrObj[l.a] ELSE l.v
 
 (* A capability call reaches the client's writer iff every foreign wrapper  *)
 (* on the way lets it through and the client's writer has it.                *)
-Reach(p, o) == \/ o.op \in {"w", "wh"}
+Reach(p, o) == \/ o.op \in {"w", "wh", "cp"}
                \/ /\ o.op \in Capabilities
                   /\ ChainPasses(UpOf[p], o.op)
                   /\ ~(o.op = "hj" /\ o.c = 3)
@@ -148,6 +149,9 @@ FinGate == IF Variant = "cachedEnabled" THEN MwEnabled ELSE lvl.on
 (* request-target forms per slot (a .cfg cannot hold functions) *)
 FormSeq(a, b, c) == [p \in Procs |-> IF p = 1 THEN a ELSE IF p = 2 THEN b ELSE c]
 UpSeq(a, b, c) == [p \in Procs |-> IF p = 1 THEN a ELSE IF p = 2 THEN b ELSE c]
+ClientsPlain == [p \in Procs |-> "plain"]
+ClientsPRS == [p \in Procs |-> IF p = 1 THEN "plain" ELSE IF p = 2 THEN "readerfrom" ELSE "stringwriter"]
+ClientsRSP == [p \in Procs |-> IF p = 1 THEN "readerfrom" ELSE IF p = 2 THEN "stringwriter" ELSE "plain"]
 UpNone == [p \in Procs |-> <<>>]
 UpUFO == UpSeq(<<"unwrap">>, <<"flushfwd">>, <<"opaque">>)
 UpUUN == UpSeq(<<"unwrap", "unwrap">>, <<>>, <<"unwrap">>)
@@ -281,7 +285,7 @@ HPre(p) ==
 (* "stickyHijack": a successful Hijack sets a flag that makes the wrapper    *)
 (* swallow later Write / WriteHeader calls and that Reset does not clear.)   *)
 Sticky == Variant = "stickyHijack"
-Swallowed(p, o) == Sticky /\ hW[p] # 0 /\ rwObj[hW[p]].hj /\ o.op \in {"w", "wh"}
+Swallowed(p, o) == Sticky /\ hW[p] # 0 /\ rwObj[hW[p]].hj /\ o.op \in {"w", "wh", "cp"}
 (* A capability call reaches the client's writer iff every foreign wrapper  *)
 (* on the way lets it through and the client's writer has it.  (Variant      *)
 (* "hijackByAssertion": the recorder's Hijack does `w.rw.(http.Hijacker)`    *)
@@ -307,7 +311,13 @@ Op(p) ==
 Cw(p) ==
     /\ pc[p] = "cw"
     /\ LET o == ops[p][ip[p]]
-           call == [op |-> o.op, c |-> o.c, by |-> rid[p]]
+           \* As written the recorder has only Write, so every helper ends up in plain Write calls and all
+           \* bytes arrive.  (Variant "readFromDropsEOFChunk": the recorder has a ReadFrom that delegates to
+           \* the neighbouring writer's, or else copies with a loop that throws the last chunk away when it
+           \* comes together with io.EOF.)
+           lost == /\ Variant = "readFromDropsEOFChunk" /\ o.op = "cp" /\ o.c = 2 /\ hW[p] # 0
+                   /\ ~(Len(UpOf[p]) = 0 /\ ClientOf[p] = "readerfrom")
+           call == [op |-> o.op, c |-> IF lost THEN 0 - o.c ELSE o.c, by |-> rid[p]]
            to == RwOf(p).cl
        IN IF \E t \in Procs : rid[t] = to
             THEN /\ client' = [t \in Procs |-> IF rid[t] = to THEN Append(client[t], call) ELSE client[t]]
